@@ -10,6 +10,8 @@
 //     T<t>         wait until thread t's own timeout has returned it
 //     X<t>         let thread t's flush callback return
 //     N<t>:<r|c|f> thread t STARTS a call while the teardown is waiting (must be rejected by the fence)
+//     O<t>:<ms>    thread t's connectSync times out after ms and is held inside engine->close (the timeout path)
+//     U<t>         let thread t's engine->close return: it re-locks, looks at shuttingDown and returns
 //     ?            is the destructor done (polled for 300 ms)?
 //   Output: thread results in thread order, then the answers to '?'.
 //   P <tcp|udp> <n>   real engine: n threads park (receiveSync on live sessions with data in flight, connectSync to
@@ -111,6 +113,23 @@ static std::string scripted(const std::vector<std::string> &ops)
   auto connectCount = [&] { std::lock_guard<std::mutex> lk(elog.m); std::size_t n = 0; for (auto &ev : elog.evs) if (ev.kind == 'C') ++n; return n; };
   std::string answers;
   bool hung = false;
+  // O<t>:<ms>: a connectSync whose own timeout has fired and whose timeout path (engine->close, then the re-lock and the
+  // look at shuttingDown) is held inside engine->close by this gate - the caller is past its wait but has not returned
+  struct CloseGate
+  {
+    std::mutex m;
+    std::condition_variable cv;
+    std::set<SessionId> armed, inside, released;
+  };
+  auto gate = std::make_shared<CloseGate>();
+  eng->onCloseHook = [gate](SessionId sid)
+  {
+    std::unique_lock<std::mutex> lk(gate->m);
+    if (!gate->armed.count(sid)) return;
+    gate->inside.insert(sid);
+    gate->cv.notify_all();
+    gate->cv.wait(lk, [&] { return gate->released.count(sid) != 0; });
+  };
   auto waitReturn = [&](Worker &w, int ms)
   {
     for (int i = 0; i < ms * 10 && !w.returned.load(); ++i) std::this_thread::sleep_for(std::chrono::microseconds(100));
@@ -186,6 +205,34 @@ static std::string scripted(const std::vector<std::string> &ops)
     if (op.empty() || hung) continue;
     char k = op[0];
     if (k == 'R') { auto p = split(op.substr(1), ':'); launch(std::stoi(p[0]), 'r', std::stoi(p[1]), true); }
+    else if (k == 'O')
+    {
+      auto p = split(op.substr(1), ':');
+      const int t = std::stoi(p[0]);
+      const int ms = std::stoi(p[1]);
+      auto w = std::make_unique<Worker>();
+      Worker *wp = w.get();
+      wp->kind = 'c';
+      wp->sid = eng->nextSid.load();
+      { std::lock_guard<std::mutex> g(gate->m); gate->armed.insert(wp->sid); }
+      wp->th = std::thread([=]
+      {
+        auto r = raw->connectSync("127.0.0.1", 9, TlsMode::None, std::chrono::milliseconds(ms));
+        wp->result = r.isOk() ? "ok" : codeName(r.error().code);
+        wp->returned = true;
+      });
+      const SessionId sid = wp->sid;
+      workers[t] = std::move(w);
+      std::unique_lock<std::mutex> lk(gate->m);
+      if (!gate->cv.wait_for(lk, std::chrono::seconds(10), [&] { return gate->inside.count(sid) != 0; })) hung = true;
+    }
+    else if (k == 'U')
+    {
+      int t = std::stoi(op.substr(1));
+      if (!workers.count(t)) continue;
+      { std::lock_guard<std::mutex> g(gate->m); gate->released.insert(workers[t]->sid); gate->cv.notify_all(); }
+      if (!waitReturn(*workers[t], 5000)) hung = true;
+    }
     else if (k == 'C') launch(std::stoi(op.substr(1)), 'c', 0, true);
     else if (k == 'F') launch(std::stoi(op.substr(1)), 'f', 0, true);
     else if (k == 'N') { auto p = split(op.substr(1), ':'); launch(std::stoi(p[0]), p[1][0], 20000, false); }
@@ -249,6 +296,7 @@ static std::string scripted(const std::vector<std::string> &ops)
   if (hung) out += " HUNG";
   // clean up: release flush callbacks, close whatever is still parked, start the destructor if the script did not
   { std::lock_guard<std::mutex> g(m); for (auto &kv : workers) flushReleased.insert(kv.second->sid); cv.notify_all(); }
+  { std::lock_guard<std::mutex> g(gate->m); for (auto &kv : workers) gate->released.insert(kv.second->sid); gate->cv.notify_all(); }
   if (!destroyed.load())
     for (auto &kv : workers)
       if (!kv.second->returned.load() && kv.second->kind != 'f')
